@@ -51,6 +51,7 @@ class Tally(object):
         self.samples = []                    # (order_key, sample)
         self.notes = set()                   # free-text remarks (e.g. uncovered functions)
         self.flags = collections.Counter()   # things that make the run non-exhaustive
+        self.mx = {}                         # max-merged gauges
 
     # -- recording -------------------------------------------------------
     def viol(self, function, clause, case, observed=None, expected=None, tags=None,
@@ -73,6 +74,9 @@ class Tally(object):
         if len(self.samples) < MAX_SAMPLES:
             self.samples.append((order, jsonable(obj)))
 
+    def gauge(self, name, value):
+        self.mx[name] = max(self.mx.get(name, value), value)
+
     def note(self, text):
         self.notes.add(text)
 
@@ -81,6 +85,8 @@ class Tally(object):
         self.c.update(other.c)
         self.flags.update(other.flags)
         self.notes |= other.notes
+        for k, v in other.mx.items():
+            self.gauge(k, v)
         for key, g in other.groups.items():
             mine = self.groups.setdefault(key, {'count': 0, 'examples': []})
             mine['count'] += g['count']
